@@ -55,6 +55,9 @@ def main(ctx):
                         for restart in (True, False):
                             jobs.append({"sc": "ping", "role": role, "start": start, "I": I, "T": T,
                                          "restart": restart, "npings": 3 if tier == "thorough" else 2})
+                            if start == 0.0 and T == vals[0]:
+                                jobs.append({"sc": "ping", "role": role, "start": start, "I": I, "T": T,
+                                             "restart": restart, "npings": 2, "app": "between-frames"})
                             if start == 0.0 and restart and T == vals[0]:
                                 for size in (125, 124, 13):
                                     jobs.append({"sc": "ping", "role": role, "start": start, "I": I, "T": T,
@@ -78,7 +81,7 @@ def main(ctx):
               "close:responsive_ok", "drop:silent_dropped", "drop:responsive_ok",
               "ping:silent_dropped", "ping:responsive_ok", "ping:data_counts",
               "ping:data_does_not_count", "after_closed_checked", "pings_seen", "disabled_ok",
-              "stalled_peer_jobs", "ping:fragment_as_traffic", "proxy_jobs", "close_started_by_failing", "close_with_autoping", "ping_size_125", "ping:connection_ends_with_ping_outstanding",
+              "stalled_peer_jobs", "ping:fragment_as_traffic", "proxy_jobs", "close_started_by_failing", "close_with_autoping", "ping_size_125", "ping:connection_ends_with_ping_outstanding", "ping:app_between_streamed_frames",
               "peerclose_echo"):
         ctx.require(n)
 
@@ -478,6 +481,12 @@ def job(a):
             # a plan is only meaningful up to the first reaction that is expected to fail
             r = Run(role, opts, start)
             r.handshake()
+            if a.get("app") == "between-frames":
+                # the application is sending a long message with the frame-based streaming API and is
+                # between two frames of it for the whole scenario: control frames may be interleaved
+                r.p.beginMessage(True)
+                r.p.sendMessageFrame(b"first frame of a streamed message")
+                count("ping:app_between_streamed_frames")
             evals[0] += 1
             case = {"plan": [list(x) for x in plan]}
             horizon = (I + max(T, 1) + 2) * (npings + 1) + 2
